@@ -33,7 +33,8 @@ THEOREMS = [
     'Tbox.C17.C17_parallel_replay_into_next_run_counterexample', 'Tbox.C17.C17_parallel_replay_repaired',
     'Tbox.C17.C17_parallel_restart_from_final_callback', 'Tbox.C17.stepR_wf', 'Tbox.C17.hookF_ok', 'Tbox.C17.startR_wf', 'Tbox.C17.runTaskR_wf',
     # ActionExecutor
-    'Tbox.C17.C17_exec_one_at_a_time', 'Tbox.C17.C17_exec_heads_only', 'Tbox.C17.C17_exec_highest_priority_first', 'Tbox.C17.Exec.sched_hp', 'Tbox.C17.Exec.sched_inv', 'Tbox.C17.Exec.xstep_inv',
+    'Tbox.C17.C17_exec_one_at_a_time', 'Tbox.C17.C17_exec_heads_only', 'Tbox.C17.C17_exec_highest_priority_first', 'Tbox.C17.Exec.sched_hp', 'Tbox.C17.C17_exec_callbacks_once', 'Tbox.C17.Exec.sched_li',
+    'Tbox.C17.C17_run_ids_distinct', 'Tbox.C17.step_idsOk', 'Tbox.C17.Exec.sched_inv', 'Tbox.C17.Exec.xstep_inv',
     # the inductive steps themselves
     'Tbox.C17.bstep_inv', 'Tbox.C17.step_wf', 'Tbox.C17.reachable_wf', 'Tbox.C17.seq_drive_aux',
 ]
@@ -55,7 +56,7 @@ TRUSTED = [
     'the Trace vectors, labels, vars() and toJson of actions are not modelled; reasons are modelled by their code',
 ]
 ASSUMPTIONS = [
-    'control calls (start/pause/resume/stop/reset) are made on the root only, from the loop thread: from outside (do / defer) or from inside the callbacks of the ROOT (final: synchronous inside finish()/stop(); finish, block: from the loop); call-outs of inner nodes (function bodies, DummyAction callbacks, nested final callbacks) making control calls are not modelled',
+    'control calls (start/pause/resume/stop/reset) are made on the root only, from the loop thread: from outside (do / defer) or from inside the callbacks of the ROOT (final: synchronous inside finish()/stop(); finish, block: from the loop) — these are modelled; control calls on the root from call-outs of INNER nodes (FunctionAction bodies, final callbacks of inner composites; op `icb`) are run in free mode: not predicted by the model, the harness evaluates the prediction-free clauses (nothing under way below an ended action, finish notification once per run and only while Finished, block notification not while Idle/Stoped, final callback only on an ended action, root not under way / Idle at the end of an op whose last call was stop() / reset(), no Running composite without a child under way once settled); control calls on inner nodes (misuse: the parent keeps its own bookkeeping) are not generated',
     'a DummyAction leaf is completed / blocked by its owner only while it is running',
     'no two armed timers share a deadline (durations are 100k + a residue unique per node, clock steps are multiples of 100 ms)',
     'ActionExecutor: its actions are leaves (dummy / function / pre-stopped); callbacks do not call back into the executor; destruction is exercised only between cases',
@@ -231,6 +232,68 @@ def gen_scripted_random(rng, nops):
     return ops
 
 
+ISCRIPTS = ['stop', 'reset', 'pause', 'reset start', 'stop reset start', 'pause resume', 'start', 'stop reset']
+# (tree, function leaves, composites) for call-outs of inner nodes
+FREE_TREES = [
+    ('( seq:all Fs Fs Fs )', [1, 2, 3], [0]), ('( seq:all Fs ( par:anyf Ff D ) Fs )', [1, 3, 5], [0, 2]), ('( par:all Fs Fs D )', [1, 2], [0]),
+    ('( par:anys Fs D Z0 )', [1], [0]), ('( par:anyf ( seq:all Fs Ff ) D )', [2, 3], [0, 1]), ('( seq:all ( seq:all ) Fs )', [2], [0, 1]),
+    ('( seq:all ( par:all ) Fs D )', [2], [0, 1]), ('( ife:tt Fs ( seq:all Fs Z0 ) Ff )', [1, 3, 5], [0, 2]), ('( loop:us ( seq:all Fs Ff ) )', [2, 3], [0, 1]),
+    ('( rep:2:nb ( seq:all Fs Z0 ) )', [2], [0, 1]), ('( cmp ( seq:all Fs D ) )', [2], [0, 1]), ('( wr:i ( par:anys Fs D ) )', [2], [0, 1]),
+    ('( seq:all Z0 ( par:anyf ( seq:all ) D Fs ) Fs )', [5, 6], [0, 2, 3]), ('( par:anyf D ( seq:all Fs Fs ) )', [3, 4], [0, 2]),
+    ('( sw:d Fs:0 ( seq:all Fs Fs ) Fs )', [1, 3, 4, 5], [0, 2]), ('( ift Fs ( seq:all Fs ) Ff Fs )', [1, 3, 4, 5], [0, 2]),
+    ('( lif:t Fs ( seq:all Fs Z0 ) )', [1, 3], [0, 2]), ('( seq:all@1 Fs Z1 Fs )', [1, 3], [0]), ('( par:all@0 ( seq:all Fs Z1 ) D )', [2], [0, 1]),
+]
+
+
+def gen_free(tree, kind, node, target, script, extra=None, at=2):
+    ops = ['tree ' + tree, 'icb %s %d %d %s' % (kind, node, target, script), 'do start']
+    for i in range(6):
+        if extra is not None and i == at:
+            ops.append(extra)
+        elif i == 3:
+            ops.append('adv 2')
+        else:
+            ops.append('pass')
+    ops += ['pass', 'adv 5', 'pass', 'pass', 'pass']
+    if not any(h in tree for h in ('loop', 'lif', 'rep')):      # a loop that runs for ever never settles
+        ops.append('settle')
+    return ops
+
+
+def gen_free_random(rng):
+    tree, n, dummies = gen_tree(rng, max_depth=rng.choice([2, 3]), max_nodes=rng.choice([6, 10, 16]), p_tmo=rng.choice([0, 0.15]),
+                                leaves=rng.choice(['FFFFZD', 'FFFD', 'FFZ', 'F']))
+    toks = tree.split()[1:]
+    ids, fn, asm = 0, [], []
+    for i, tk in enumerate(toks):
+        if tk in ('(', ')'): continue
+        if i > 0 and toks[i - 1] == '(':
+            asm.append(ids)
+        elif tk.startswith('F'):
+            fn.append(ids)
+        ids += 1
+    ops = [tree]
+    k = 0
+    for _ in range(rng.choice([1, 1, 2, 3])):
+        if fn and rng.random() < 0.6:
+            ops.append('icb body %d 0 %s' % (rng.choice(fn), rng.choice(ISCRIPTS))); k += 1
+        elif asm:
+            ops.append('icb final %d 0 %s' % (rng.choice(asm), rng.choice(ISCRIPTS))); k += 1
+    if k == 0:
+        return None
+    ops.append('do start')
+    for _ in range(rng.choice([6, 10, 16])):
+        r = rng.random()
+        if r < 0.45: ops.append('pass')
+        elif r < 0.6: ops.append('adv %d' % rng.choice([1, 1, 2, 3]))
+        elif r < 0.9: ops.append('do ' + ' '.join(rand_call(rng, dummies) for _ in range(rng.choice([1, 1, 2]))))
+        else: ops.append('defer ' + rand_call(rng, dummies))
+    # (no `settle` here: random runs with several scripts and control calls still end in stuck composites now and then —
+    #  recorded as an open finding in Props.lean; the directed set above is checked with `settle`)
+    ops += ['pass', 'adv 6', 'pass', 'pass', 'pass']
+    return ops
+
+
 def gen(rng, tier):
     quick = tier == 'quick'
     # malformed stream: both sides must answer bad-op
@@ -280,7 +343,22 @@ def gen(rng, tier):
         for sc in ('reset start', 'reset', 'stop', 'reset start pause', 'stop reset start'):
             yield ['tree ' + tree, 'cb final ' + sc, 'do start pause', 'do emit:1:s emit:2:s', 'pass', 'do resume', 'pass', 'pass', 'do emit:3:s', 'pass', 'pass']
             yield ['tree ' + tree, 'cb final ' + sc, 'do start', 'do pause', 'do emit:1:s emit:2:f emit:3:s', 'pass', 'do resume', 'pass', 'pass', 'pass']
+    # call-outs of inner nodes (function bodies, final callbacks of inner composites) making control calls: free mode
+    yield ['tree ( seq:all Fs ( seq:all Fs ) )', 'settle', 'icb', 'icb body 0 0 stop', 'icb body 9 0 stop', 'icb final 1 0 stop', 'icb body 1 7 stop',
+           'icb body 1 0 emit:1:s', 'icb nope 1 0 stop', 'icb body 1 0 stop', 'do start', 'pass', 'settle', 'settle x', 'pass']
+    for (tree, fns, asms) in FREE_TREES:
+        for sc in (ISCRIPTS if not quick else ISCRIPTS[:5]):
+            for f in fns:
+                yield gen_free(tree, 'body', f, 0, sc)
+            for a in asms:
+                yield gen_free(tree, 'final', a, 0, sc)
+        for f in fns[:2]:
+            yield gen_free(tree, 'body', f, 0, 'stop', extra='do pause')
+            yield gen_free(tree, 'body', f, 0, 'reset start', extra='do stop reset start')
     n = 1500 if quick else 12000
+    for _ in range(n // 5):
+        c = gen_free_random(rng)
+        if c: yield c
     for _ in range(n // 4):
         yield gen_scripted_random(rng, rng.choice([6, 12, 20]))
     yield ['xcancelcur', 'xapp D 3', 'xapp Q 1', 'xapp D 1', 'tree Fs', 'do start', 'xemit 0 s', 'xcancel 0', 'xpass', 'xapp D 1']
@@ -363,7 +441,7 @@ LEVEL_NOTE = ('whole-tree "root result = documented meaning, exactly one finish 
               'the deferred queue for trees of Sequence/IfElse/IfThen/Switch/Wrapper/Composite/Loop/LoopIf/Repeat(n>=1) over Function and Sleep leaves (C17_result_matches_doc_serial, '
               'safety for every pass/clock sequence; C17_finishes_exactly_once, liveness: after cost(t)+1 big clock steps / passes in any fair schedule the trace IS the complete visit order + one finish, when the evaluator terminates; C17_loop_never_finishes: otherwise no finish notification ever; C17_skeleton_preserved for every op sequence); OPEN: order of the calls of a non-terminating loop, Parallel, timeouts (compared with the evaluator on '
               'every control-free generated run for all composites); trace equivalence '
-              'of a reset tree with a fresh one (Clean + WF after reset are proved); ActionExecutor: one-at-a-time, heads-only and highest-priority-first proved; callbacks-once monitored, not proved; trusted: Lean kernel, '
+              'of a reset tree with a fresh one (Clean + WF after reset are proved); ActionExecutor: one-at-a-time, heads-only, highest-priority-first and callbacks-once proved; trusted: Lean kernel, '
               'hand-written model, harness, generator coverage (measured)')
 TECHNIQUE = 'Lean 4 invariant/structural-induction proofs over an action-tree model + model/implementation correspondence on the real loop'
 DESIGN_REF = 'DESIGN.md §6 C17, §7 row 15'
